@@ -100,10 +100,13 @@ impl OperationControl for Repeat {
             // code, i.e. GreedyFixed, ReluctantFixed, UnambiguousRepeat),
             // because each of these subclasses overrides matches_iter anyway,
             // so this code can never be reached.
+            let mut stack_bound = bound;
             if self.min == 0 && !matcher.is_duplicate_zero_length_match(self, position) {
                 // add a match at the current position if zero occurrences are allowed
                 iterators.push(Box::new(std::iter::once(position)));
                 positions.push(p);
+                // this entry occupies a slot of the stack without being a repetition
+                stack_bound += 1;
             }
             for _i in 0..bound {
                 let mut it = self.operation.matches_iter(matcher, p);
@@ -125,7 +128,7 @@ impl OperationControl for Repeat {
                     self.operation.as_ref(),
                     iterators,
                     positions,
-                    bound,
+                    stack_bound,
                     self.min,
                     position,
                 ),
